@@ -268,10 +268,12 @@ void* _mi_heap_realloc_zero(mi_heap_t* heap, void* p, size_t newsize, bool zero)
   }
   void* newp = mi_heap_malloc(heap,newsize);
   if mi_likely(newp != NULL) {
-    if (zero && newsize > size) {
-      // also set last word in the previous allocation to zero to ensure any padding is zero-initialized
-      const size_t start = (size >= sizeof(intptr_t) ? size - sizeof(intptr_t) : 0);
-      _mi_memzero((uint8_t*)newp + start, newsize - start);
+    if (zero) {
+      // zero everything beyond the bytes copied from the old block, up to the full usable size of the new
+      // block so a later in-place growth still sees zeros (also zero the last copied word for any padding)
+      const size_t copied = (newsize > size ? size : newsize);
+      const size_t start = (copied >= sizeof(intptr_t) ? copied - sizeof(intptr_t) : 0);
+      _mi_memzero((uint8_t*)newp + start, mi_usable_size(newp) - start);
     }
     else if (newsize == 0) {
       ((uint8_t*)newp)[0] = 0; // work around for applications that expect zero-reallocation to be zero initialized (issue #725)
